@@ -62,7 +62,7 @@ def matrices(tier):
 
 
 def shards(tier, seed):
-    return [(tier, i) for i in range(NSH[tier])]
+    return [('pinned', tier)] + [(tier, i) for i in range(NSH[tier])]
 
 
 def run_impl(impl, C, **kw):
@@ -238,6 +238,12 @@ def check_storage_dtype(case, ctx):
 
 
 def run_shard(sh, ctx):
+    if sh[0] == 'pinned':
+        # the recorded input of the open finding (python vs compiled on wide-range counts)
+        case = {'C': [[10 ** 6, 10 ** 6, 1], [1, 1, 1], [1, 1, 1000]], 'scale': 1, 'impl': 'c', 'compare': True}
+        check_case(case, ctx)
+        ctx.sample(case)
+        return
     tier, i = sh
     ms = matrices(tier)
     if i < len(NEAR_LIMIT):
